@@ -13,6 +13,10 @@ R2  MEAN whose axes tensor counts the axes from the end ([-3, -2] = height and w
     same MEAN written [1, 2] runs on the NPU; the negative form is rejected by constraint_mean_axis ("Requirements for
     axis parameter") and stays on the CPU although the bullet's conditions (reduction over H and W) hold for the operator.
     No crash - a placement the report does not explain.  c16.MEAN_NEGATIVE_AXES_CASES
+R3  SQUARED_DIFFERENCE whose second operand is a constant, between third-party CUSTOM operators (CPU-only neighbours):
+    every listed constraint holds, the compiler dies with AssertionError in tflite_writer.serialise_tensor
+    (buf_id == BUF_IDX_ZERO with values present).  Alone or between NPU operators the same operator compiles; ADD / MAXIMUM
+    in the same position compile (checked with c16.build_case; the control below uses ADD).  c16.SQDIFF_CONST_OPERAND_CPU_NEIGHBOURS
 
 usage: /venv/bin/python /verif/harness/repro/c16_round5_findings.py        (VERIF_REPO selects the tree, default /repo)
 """
@@ -43,9 +47,24 @@ def mean_net(axes):
     return n.desc([y])
 
 
+def sqdiff_net(op):
+    n = netgen.Net(1)
+    src = n.fm("src", [1, 4, 6, 8], "INT8", 0.05, 0, is_input=True)
+    x = n.fm("x", [1, 4, 6, 8], "INT8", 0.05, 0)
+    n.op("CUSTOM", [src], [x], custom_code="CpuOnlyBefore", custom_options=[1])
+    k = n.const("k", [1, 4, 6, 8], "INT8", scale=[0.05], zp=[0], data={"rng": 11, "lo": -120, "hi": 120})
+    y = n.fm("y", [1, 4, 6, 8], "INT8", 0.1, -1)
+    n.op(op, [x, k], [y], ["AddOptions", {"FusedActivationFunction": 0}] if op == "ADD" else None)
+    z = n.fm("z", [1, 4, 6, 8], "INT8", 0.07, -5)
+    n.op("CUSTOM", [y], [z], custom_code="CpuOnlyAfter", custom_options=[2])
+    return n.desc([z])
+
+
 CASES = [("R1 control  SLICE size [1, 5, 5, 8]", slice_net([1, 5, 5, 8]), "NPU"),
          ("R1          SLICE size [1, 5, -1, 8] (same slice, width written as -1)", slice_net([1, 5, -1, 8]), "NPU"),
          ("R1          SLICE size [1, -1, 5, -1] (height and depth written as -1)", slice_net([1, -1, 5, -1]), "NPU"),
+         ("R3 control  CUSTOM -> ADD(x, const) -> CUSTOM", sqdiff_net("ADD"), "CUSTOM,NPU,CUSTOM"),
+         ("R3          CUSTOM -> SQUARED_DIFFERENCE(x, const) -> CUSTOM", sqdiff_net("SQUARED_DIFFERENCE"), "CUSTOM,NPU,CUSTOM"),
          ("R2 control  MEAN axes [1, 2]", mean_net([1, 2]), "NPU"),
          ("R2          MEAN axes [-3, -2] (same reduction)", mean_net([-3, -2]), "NPU")]
 
@@ -59,12 +78,12 @@ def main():
                 fh.write(netgen.build(desc))
             r = vela_run.run_cli(path, {"accel": "ethos-u55-128"}, d)
             if r["rc"] != 0 or not r["output"]:
-                last = [ln for ln in (r["stderr"] + r["stdout"]).splitlines() if ln.strip()][-1:]
+                last = [ln for ln in (r["stderr"] or r["stdout"]).splitlines() if ln.strip()][-1:]
                 got = "no output model (exit status %s): %s" % (r["rc"], last[0][:120] if last else "")
             else:
                 with open(r["output"], "rb") as fh:
                     ops = [o["code"] for o in flatmodel.abstract(fh.read())["subgraphs"][0]["ops"]]
-                got = "NPU" if ops == ["CUSTOM"] else "operators of the output: %s" % ops
+                got = "NPU" if ops == ["CUSTOM"] else "CUSTOM,NPU,CUSTOM" if ops == ["CUSTOM"] * 3 else "operators of the output: %s" % ops
         ok = got == want
         bad += not ok
         print("%-80s expected %s, got %s%s" % (title, want, got, "" if ok else "   <--"))
